@@ -65,6 +65,7 @@ def cases(tier, seed):
             out.append({'kind': 'subclass', 'seed': case_seed('C14', seed, 'subclass', D, P, k), 'params': {'D': D, 'P': P, 'which': k}})
         for lay in gen.LAYOUTS + ['transposed-view', 'slice-of-larger']:
             out.append({'kind': 'layouts', 'seed': case_seed('C14', seed, 'layouts', D, P, lay), 'params': {'D': D, 'P': P, 'layout': lay}})
+        out.append({'kind': 'outalias', 'seed': case_seed('C14', seed, 'outalias', D, P), 'params': {'D': D, 'P': P}})
         out.append({'kind': 'writes_input', 'seed': case_seed('C14', seed, 'writes_input', D, P), 'params': {'D': D, 'P': P}})
         for k in range(2):
             out.append({'kind': 'floordiv', 'seed': case_seed('C14', seed, 'floordiv', D, P, k), 'params': {'D': D, 'P': P}})
@@ -123,6 +124,31 @@ def _layouts(ctx, p, rng):
         ctx.ok('layouts:' + name, ('layouts', name, lay, D, P))
 
 
+def _outalias(ctx, p, rng):
+    """the result buffer of a product is one of its operands (dot(M, v, out=v), dot(M, X, out=X), dot(X, C, out=X): NumPy's in-place
+    update idiom): the returned product has the coefficients obtained with independent copies of the operands"""
+    D, P = p['D'], p['P']
+    n = 3
+    M0 = gen.series_data(rng, D, P, (n, n), 'R', 'random', False, 0.4); X0 = gen.series_data(rng, D, P, (n, n), 'R', 'random', False, 0.4)
+    v0 = gen.series_data(rng, D, P, (n,), 'R', 'random', False, 0.4); C0 = np.round(rng.normal(size=(n, n)), 2)
+    forms = [('dot(M, v, out=v)', lambda M, X, v: UTPM.dot(M, v, out=v), lambda M, X, v: UTPM.dot(M, v)),
+             ('dot(M, X, out=X)', lambda M, X, v: UTPM.dot(M, X, out=X), lambda M, X, v: UTPM.dot(M, X)),
+             ('dot(M, X, out=M)', lambda M, X, v: UTPM.dot(M, X, out=M), lambda M, X, v: UTPM.dot(M, X)),
+             ('dot(X, C, out=X)', lambda M, X, v: UTPM.dot(X, C0, out=X), lambda M, X, v: UTPM.dot(X, C0)),
+             ('dot(C, X, out=X)', lambda M, X, v: UTPM.dot(C0, X, out=X), lambda M, X, v: UTPM.dot(C0, X)),
+             ('dot(X, X, out=X)', lambda M, X, v: UTPM.dot(X, X, out=X), lambda M, X, v: UTPM.dot(X, X))]
+    for name, f, g in forms:
+        ref = g(UTPM(M0.copy()), UTPM(X0.copy()), UTPM(v0.copy()))
+        try:
+            got = f(UTPM(M0.copy()), UTPM(X0.copy()), UTPM(v0.copy()))
+        except Exception:
+            ctx.skip('unsupported:alias:out=:' + name); continue
+        err = float(np.max(np.abs(got.data - ref.data)) / (np.max(np.abs(ref.data)) + 1e-300)) if got.data.shape == ref.data.shape else float('inf')
+        if not err <= TOL:
+            ctx.violation('alias:out-is-an-operand:value', {'form': name, 'D': D, 'P': P, 'err': err}); return
+        ctx.ok('alias:out=', ('outalias', name, D, P), noise=err)
+
+
 def _writes_input(ctx, p, rng):
     """a recorded program that assigns into its own argument (x[0] = x[1] * x[2]): every driver evaluates the graph on its own copy of
     the point - the caller's array is unchanged afterwards, may be read-only, and a second call returns the same values"""
@@ -145,11 +171,11 @@ def _writes_input(ctx, p, rng):
     drivers = [('gradient', cg, lambda a: cg.gradient(a)),
                ('hessian', cg, lambda a: cg.hessian(a)), ('hess_vec', cg, lambda a: cg.hess_vec(a, v.copy())), ('jacobian', cgv, lambda a: cgv.jacobian(a)),
                ('jac_vec', cgv, lambda a: cgv.jac_vec(a, v.copy())), ('vec_jac', cgv, lambda a: cgv.vec_jac(w.copy(), a)), ('vec_hess', cgv, lambda a: cgv.vec_hess(w.copy(), a))]
-    ctx.program_writes_input = True
+    monitors.PROGRAM_WRITES_INPUT[0] = True
     try:
         return _writes_input_drivers(ctx, p, rng, drivers, n, g)
     finally:
-        ctx.program_writes_input = False
+        monitors.PROGRAM_WRITES_INPUT[0] = False
 
 
 def _writes_input_drivers(ctx, p, rng, drivers, n, g):
@@ -379,6 +405,8 @@ def run_case(ctx, case):
             probe.S.suppress = False
     if case['kind'] == 'layouts':
         return _layouts(ctx, case['params'], gen.rng_of(case))
+    if case['kind'] == 'outalias':
+        return _outalias(ctx, case['params'], gen.rng_of(case))
     if case['kind'] == 'writes_input':
         return _writes_input(ctx, case['params'], gen.rng_of(case))
     if case['kind'] == 'floordiv':
